@@ -151,7 +151,6 @@ func classCfg() gen.Cfg {
 	c := gen.ModelCfg()
 	c.Pure = true
 	c.SmallNums = true
-	c.Triggers = false
 	c.Fatal = false
 	c.HostFns = false
 	for _, g := range []string{"exit-pending", "transform-none", "transform-return", "transform-anyobj", "transform-typedef"} {
